@@ -266,6 +266,19 @@ Theorem named_args_final_indep :
 Proof. exact named_args_final_indep_lemma. Qed.
 Print Assumptions named_args_final_indep.
 
+(* check.go:FunctionCallNameTypeCheck by name: which parameter the type-mismatch error names *)
+Theorem named_args_check_indep :
+  forall V (tyof : V -> Z) declared (s1 s2 : list (gostr * V)),
+    Permutation s1 s2 -> NoDup (map fst s1) -> named_args_check tyof declared s1 = named_args_check tyof declared s2.
+Proof. exact named_args_check_indep_lemma. Qed.
+Print Assumptions named_args_check_indep.
+
+Theorem named_args_check_in_walk_order_refuted :
+  exists (declared : list (gostr * Z)) (s1 s2 : list (gostr * Z)), Permutation s1 s2 /\ NoDup (map fst s1) /\
+    named_args_check_in_walk_order (fun v => v) declared s1 <> named_args_check_in_walk_order (fun v => v) declared s2.
+Proof. exact named_args_check_in_walk_order_refuted_lemma. Qed.
+Print Assumptions named_args_check_in_walk_order_refuted.
+
 (* ---- first offender: early exit from a walk ---- *)
 Theorem first_offender_sorted_indep :
   forall V (bad : gostr * V -> bool) (o1 o2 : list (gostr * V)),
